@@ -164,7 +164,7 @@ func pduGetCmd(p sms.PDU) []int { return be(uint64(p.GetCommand().ToUint32()), 4
 // buildRequest makes a well-formed request of the type with its command id in the header
 func buildRequest(rr *rand.Rand, tn string, flavour int) sms.PDU {
 	a := defaultAssign(rr, tn, true)
-	if tf := tailField(tn); tf != "" && rr.Intn(6) == 0 {
+	if tf := tailField(tn); tf != "" && rr.Intn(40) == 0 {
 		// a text that travels in an optional parameter (message_payload and the like): a PDU of several thousand octets
 		a[tf] = fval{tlvs: []tlvVal{{0x0424, randBytes(rr, 3000+rr.Intn(3000))}}}
 	}
